@@ -158,6 +158,13 @@ func (x *Exec) goTo(st *State, from, to *ssa.BasicBlock) {
 			// invariant, re-proved at the back edge)
 			st.ghost[fmt.Sprintf("$cnt%d", li.ordinal)] = cnt0
 			st.Assume(Ge(fr.locals[li.countVar], cnt0))
+			// ... and never passes the bound e of its test `i < e` by more than its initial value did,
+			// when e is computed from state the loop does not modify: i <= max(i0, e)
+			if b := x.countBound(li); b != nil {
+				if y, ok := x.peekBound(st, li, b); ok {
+					st.Assume(Or(Le(fr.locals[li.countVar], y), Le(fr.locals[li.countVar], cnt0)))
+				}
+			}
 		}
 		st.ghost[fmt.Sprintf("$held%d", li.ordinal)] = mk(SInt, fmt.Sprint(len(st.held)))
 		if top && li.lc != nil {
@@ -204,6 +211,12 @@ func (x *Exec) autoRangeInv(st *State, li *loopInfo, phase string) {
 			if v, ok := st.fr.locals[li.countVar]; ok {
 				o := x.oblig(fmt.Sprintf("loop%d/counter-lower-bound/%s", li.ordinal, phase), "invariant-auto", nil, li.head.Instrs[0].Pos())
 				x.Assert(st, o, Ge(v, c0))
+				if b := x.countBound(li); b != nil {
+					if y, ok := x.peekBound(st, li, b); ok {
+						o2 := x.oblig(fmt.Sprintf("loop%d/counter-upper-bound/%s", li.ordinal, phase), "invariant-auto", nil, li.head.Instrs[0].Pos())
+						x.Assert(st, o2, Or(Le(v, y), Le(v, c0)))
+					}
+				}
 			}
 		}
 		return
